@@ -54,7 +54,7 @@ func (c *vhCtx) cancel() {
 
 var vhErrApply = errors.New("function failed")
 
-//vh:steps=8000000 concurrent sched=600 preempt=2 paths=400000 paths.thorough=3000000 wall.thorough=2400 novalidate
+//vh:steps=8000000 concurrent sched=600 preempt=2 paths=400000 paths.thorough=2000000 wall.thorough=900 novalidate
 func VH_C25_MapParallel() {
 	vStub("context.WithCancelCause", func(parent context.Context) (context.Context, context.CancelCauseFunc) {
 		c := &vhCtx{done: make(chan struct{})}
